@@ -1,0 +1,23 @@
+//go:build verif
+
+package mocrelay
+
+import "sync/atomic"
+
+var verifPointFn atomic.Pointer[func(name string)]
+
+// SetVerifPoint installs the callback run at every verifPoint (nil removes it).
+// It exists only in builds with -tags verif.
+func SetVerifPoint(f func(name string)) {
+	if f == nil {
+		verifPointFn.Store(nil)
+		return
+	}
+	verifPointFn.Store(&f)
+}
+
+func verifPoint(name string) {
+	if f := verifPointFn.Load(); f != nil {
+		(*f)(name)
+	}
+}
